@@ -739,6 +739,13 @@ func genGraphCase(t *rapid.T) *graphCase {
 				dirs[i] = rapid.SampledFrom(fileDirs).Draw(t, "dir")
 			}
 			m.Key = fmt.Sprintf("f%d.tengo", i)
+			if c.Layout == "files" && !used["shared@"+dirs[i]] && rapid.IntRange(0, 2).Draw(t, "sharedBase") == 0 {
+				// different files with the same base name in different
+				// directories: importers next to them spell them alike
+				// ("./shared") and still mean different modules
+				used["shared@"+dirs[i]] = true
+				m.Key = "shared.tengo"
+			}
 			if dirs[i] != "" {
 				m.Key = dirs[i] + "/" + m.Key
 			}
